@@ -72,3 +72,29 @@ Proof.
   exists t. split; [apply run_echo_reach; exact E|].
   vm_compute in E. inversion E; subst. vm_compute. auto.
 Qed.
+
+(** ** The law of simulate (finite discrete, Cond-free programs)
+    [Ex U m F] is the expectation of F under m when every draw ranges over the finite
+    universe U with mass 2^(logpdf) (Lemmas/Law.v).  If a choice map c determines the
+    whole run — generate under c makes no draw and returns (t, w); by
+    C02_all_constrained w is then the density assess gives c — simulate produces a
+    trace holding exactly the values of c with probability 2^w: simulate samples from
+    the density assess computes.  Cond is excluded (partial): its hidden branch is
+    drawn as well. *)
+From Coq Require Import QArith Qcanon.
+From GV Require Import Lemmas.Law.
+Theorem C01_simulate_law :
+  forall (U : list value), NoDup U ->
+  forall g c args t w, NC g -> leaves_in U c ->
+    (forall F, Ex U (gf_generate g (Some c) args) F = F (t, w)) ->
+    Ex U (gf_simulate g args) (fun t' => if agreesb (Some c) t' then 1%Qc else 0%Qc) = pow2 w.
+Proof. intros U HU g c args t w. apply simulate_point_mass. exact HU. Qed.
+Print Assumptions C01_simulate_law.
+
+(** non-vacuity: in the two-site dyadic program of Lemmas/Law.v the choice map
+    {0: 1, 1: 2} determines the run and has probability 2^-4 *)
+Example C01_law_nonvacuous :
+  Ex U3 (gf_simulate (compile law_ex_prog) (VTup [VZ 0]))
+     (fun t' => if agreesb (Some (CNode [(AName 0%nat, CLeaf (VZ 1)); (AName 1%nat, CLeaf (VZ 2))])) t' then 1%Qc else 0%Qc)
+  = pow2 (-4).
+Proof. apply Qc_is_canon. vm_compute. reflexivity. Qed.
